@@ -18,7 +18,11 @@ rule = ("scripts = 'a handles n', a set-up (shared / immutable / no-copy / typed
         "set/insert/append/slice assignment/copy/assignment and typed_array<T>/unique_array<T> insert/set/resize/reserve/"
         "detach/trim/skip for uint8_t and a 12-byte POD, 6 set-ups (shared, three holders, private, full, large) x every "
         "op (lengths below/equal/above the current length and the capacity, positions front/middle/end/past-the-end/"
-        "negative), pairs of ops, random histories. Non-trivial = a mutating op succeeded through a handle whose "
+        "negative), pairs of ops, random histories; array::set(const value &) for string/int32/double values; "
+        "map<uint8_t,uint8_t> set/get of present and absent keys on private and shared maps (singles, all pairs, random); "
+        "pointer_array<T> insert/set/swap (inside, at and outside the elements, negative)/compact/resize on private and "
+        "shared arrays (singles, all pairs, random); mpt_buffer_insert called directly with positions up to SIZE_MAX. "
+        "Non-trivial = a mutating op succeeded through a handle whose "
         "buffer was shared (refcount >= 2) or immutable at that moment, counted per distinct script")
 assumptions = [
     "malloc never fails in the harness runs and all sizes stay far below SIZE_MAX (no overflow branches)",
@@ -28,14 +32,18 @@ assumptions = [
     "buffer-level calls (mpt_buffer_cut/mpt_buffer_set) are made on a private buffer obtained by detach(), as the "
     "callers in the repository do; the driver's composition is modelled as cutOp/bsetOp",
     "slice windows are set up inside the used data (the 'inconsistent slice state' repair path is not driven); "
-    "mpt_slice_write with element size 0 is not driven",
+    "mpt_slice_write with element size 0 ('prepare memory') is not driven: like the append path it treats everything "
+    "behind the window as scratch space",
+    "source data handed to mpt_array_set/mpt_array_append/mpt_array_insert does not point into the target array's own buffer",
+    "buffer::copy/buffer::move/buffer::skip/buffer::trim are buffer-level primitives that work in place; they are driven "
+    "only on the private buffer obtained by detach() (trim, skip); copy/move are not driven",
 ]
 trusted = ["hand-written model MptModel/Impl/Heap.lean tied to mptcore/array/*.c by harness/drv_array.c",
            "hand-written model MptModel/Impl/HeapXX.lean tied to mpt++/array.cpp and the array.h templates by harness/drvxx_array.cpp "
            "(mpt++/array.cpp is compiled into the driver with UBSan's vptr check off: the buffers are C objects with a hand-made vtable)",
            "harness reads the private refcount of buffer_alloc.c through its layout (internals section only)"]
 
-MUTATING = ("append", "insert", "set", "slice", "reserve", "cut", "bset", "printf", "swrite", "detach")
+MUTATING = ("append", "insert", "set", "slice", "reserve", "cut", "bset", "printf", "swrite", "detach", "binsert", "string")
 
 
 def corpus(chk):
@@ -91,6 +99,11 @@ def pool(h, o, level):
     for d in ("41", "-", "fill:63:41", "fill:64:41", "fill:65:41", "fill:s:41"):
         ops.append("a printf %s %s" % (h, d))
     ops.append("a string %s" % h)
+    # mpt_buffer_insert called directly on a private copy (positions up to the overflow of pos + len)
+    for p in (["0", "1", "u", "u+3", "s", "s+1", "18446744073709551612", "18446744073709551615"] if level == 2 else ["1", "u+3", "18446744073709551612"]):
+        ops.append("a binsert %s %s 4142" % (h, p))
+    if level == 2:
+        ops.append("a binsert %s 9223372036854775808 zero:8" % h)
     ops.append("a clone %s %s" % (h, o))
     ops.append("a drop %s" % h)
     return ops
@@ -381,15 +394,91 @@ class _XX:
         return out
 
     @staticmethod
+    def map_scripts(tier, seed, scale):
+        """map<uint8_t, uint8_t>: set/get of present and absent keys on private and shared maps (copies share the
+        entries), histories of length up to 3 from a small pool and random ones"""
+        out = []
+        setups = {"empty": [], "two": ["x mset h0 01 41", "x mset h0 02 42"],
+                  "two-shared": ["x mset h0 01 41", "x mset h0 02 42", "x clone h1 h0"],
+                  "many-shared": ["x mset h0 %02x %02x" % (k, 0x60 + k) for k in range(1, 34)] + ["x copy h1 h0"]}
+        def ops(h, o):
+            return ["x mset %s 01 51" % h, "x mset %s 02 52" % h, "x mset %s 03 53" % h, "x mget %s 01" % h, "x mget %s 02" % h,
+                    "x mget %s 03" % h, "x mget %s 21" % h, "x mset %s 21 7f" % h, "x clone %s %s" % (h, o), "x drop %s" % h]
+        pool = ops("h0", "h1") + ops("h1", "h0")
+        for sn, su in setups.items():
+            for a in pool:
+                out.append(("mp1:%s:%s" % (sn, a), ["x handles 2 mp"] + su + [a, "x mget h0 01", "x mget h1 01", "x end"]))
+                for b in pool:
+                    out.append(("mp2:%s:%s;%s" % (sn, a, b), ["x handles 2 mp"] + su + [a, b, "x mget h0 02", "x mget h1 02", "x end"]))
+        r = gen.rng(id, tier, seed, "xx-map")
+        for k in range((100 if tier == "quick" else 1500) * scale):
+            lines = ["x handles 3 mp"]
+            hs = ["h0", "h1", "h2"]
+            for _ in range(20):
+                h = r.choice(hs)
+                op = r.choice(["mset", "mset", "mset", "mget", "mget", "clone", "copy", "drop"])
+                if op == "mset":
+                    lines.append("x mset %s %02x %02x" % (h, r.randrange(1, 6), r.randrange(1, 250)))
+                elif op == "mget":
+                    lines.append("x mget %s %02x" % (h, r.randrange(1, 7)))
+                elif op == "drop":
+                    lines.append("x drop %s" % h)
+                else:
+                    lines.append("x %s %s %s" % (op, h, r.choice([x for x in hs if x != h])))
+            lines.append("x end")
+            out.append(("mpr:%d" % k, lines))
+        return out
+
+    @staticmethod
+    def pa_scripts(tier, seed, scale):
+        """pointer_array<T>: insert/set of pointers (00 = null), swap inside and outside the elements, compact on private
+        and shared arrays"""
+        out = []
+        setups = {"empty": [], "holes": ["x insert h0 0 11", "x insert h0 1 00", "x insert h0 2 33", "x insert h0 5 66"],
+                  "holes-shared": ["x insert h0 0 11", "x insert h0 1 00", "x insert h0 2 33", "x insert h0 5 66", "x clone h1 h0"],
+                  "full-shared": ["x insert h0 %d %02x" % (k, k + 1) for k in range(8)] + ["x copy h1 h0"]}
+        def ops(h, o):
+            return ["x swap %s 0 2" % h, "x swap %s 0 5" % h, "x swap %s 0 6" % h, "x swap %s 5 6" % h, "x swap %s -1 0" % h,
+                    "x swap %s 0 8" % h, "x swap %s 7 8" % h, "x swap %s 3 3" % h, "x compact %s" % h, "x insert %s 1 77" % h,
+                    "x insert %s -1 00" % h, "x set %s 0 00" % h, "x resize %s 3" % h, "x clone %s %s" % (h, o), "x drop %s" % h]
+        pool = ops("h0", "h1") + ops("h1", "h0")
+        for sn, su in setups.items():
+            for a in pool:
+                out.append(("pa1:%s:%s" % (sn, a), ["x handles 2 pa"] + su + [a, "x end"]))
+                for b in pool:
+                    out.append(("pa2:%s:%s;%s" % (sn, a, b), ["x handles 2 pa"] + su + [a, b, "x end"]))
+        r = gen.rng(id, tier, seed, "xx-pa")
+        for k in range((100 if tier == "quick" else 1500) * scale):
+            lines = ["x handles 3 pa"]
+            hs = ["h0", "h1", "h2"]
+            for _ in range(20):
+                h = r.choice(hs)
+                op = r.choice(["insert", "insert", "insert", "set", "swap", "swap", "compact", "resize", "clone", "copy", "drop"])
+                if op in ("insert", "set"):
+                    lines.append("x %s %s %d %02x" % (op, h, r.choice([0, 0, 1, 2, 3, 6, -1, -2]), r.choice([0, 0, 0x11, 0x22, 0x33, 0x44])))
+                elif op == "swap":
+                    lines.append("x swap %s %d %d" % (h, r.choice([-1, 0, 1, 2, 3, 7, 8]), r.choice([0, 1, 2, 4, 8, 9])))
+                elif op == "resize":
+                    lines.append("x resize %s %d" % (h, r.choice([0, 1, 3, 8, 9])))
+                elif op in ("compact", "drop"):
+                    lines.append("x %s %s" % (op, h))
+                else:
+                    lines.append("x %s %s %s" % (op, h, r.choice([x for x in hs if x != h])))
+            lines.append("x end")
+            out.append(("par:%d" % k, lines))
+        return out
+
+    @staticmethod
     def scripts(tier, seed, scale=1):
-        return _XX.gen(["arr", "t1", "t12", "u1", "u12"], tier, seed, scale, id, False)
+        return (_XX.gen(["arr", "t1", "t12", "u1", "u12"], tier, seed, scale, id, False) + _XX.map_scripts(tier, seed, scale)
+                + _XX.pa_scripts(tier, seed, scale))
 
     @staticmethod
     def nontrivial(script, c_lines):
         return _xx_nontrivial(script, c_lines)
 
 
-XMUT = ("set", "insert", "append", "setslice", "resize", "reserve", "detach", "trim", "skip")
+XMUT = ("set", "insert", "append", "setslice", "resize", "reserve", "detach", "trim", "skip", "setv", "mset", "swap", "compact")
 
 
 def _xx_nontrivial(script, c_lines):
